@@ -220,12 +220,26 @@ def handleReward (j : Json) : R (List (String × Json)) := do
   let mult := perfMultiplier median duration ratio improved
   let n : Rat := new.length
   let bound : Rat := if sameSign then 3 * (n + 1) else 3 * (2 * n + 1)
+  -- SPEC: the sign of a distance says whether `new` is better (documented on get_relative_distance)
+  let signOk (ord : Ordering) (d : Option Rat) : Bool := match d with
+    | some x => (match ord with
+      | .lt => decide (0 < x)
+      | .gt => decide (x < 0)
+      | .eq => decide (x = 0))
+    | none => false
+  let signsOk := signOk (order new init) (fin? (fldD impl "d_init" Json.null)) &&
+    (match best with
+     | some bk => signOk (order new bk) (fin? (fldD impl "d_best" Json.null))
+     | none => true)
   let oracle := match fin? (fldD impl "base" Json.null), fin? (fldD impl "mult" Json.null), fin? (fldD impl "reward" Json.null) with
     | some ib, some im, some ir =>
       [("finite", true), ("reward_non_negative", decide (0 ≤ ib) && decide (0 ≤ ir)),
        ("reward_within_true_range", decide (ib ≤ bound) && decide (ir ≤ 3 * bound)),
        ("multiplier_within_documented_range", decide (9 / 16 ≤ im) && decide (im ≤ 3)),
-       ("reward_within_documented_range", !assertDoc || decide (ib ≤ 6))]
+       ("reward_within_documented_range", !assertDoc || decide (ib ≤ 6)),
+       ("distance_sign_is_improvement", signsOk),
+       ("positive_reward_iff_improves_parent",
+          if best.isSome then decide (0 < ib) == (order new init == .lt) else decide (ib = 0))]
     | _, _, _ => [("finite", false)]
   return [("model", Json.mkObj [("d_init", leaf dI dIex), ("d_best", jOpt (fun d => leaf d dBex) dB),
             ("base", leaf base baseEx), ("mult", leaf mult true), ("reward", leaf (base * mult) false)]),
